@@ -186,10 +186,10 @@ def _big_stack():
         pass
 
 
-def _run_tool(cmd, cases_path, out_path, timeout):
+def _run_tool(cmd, cases_path, out_path, timeout, env=None):
     try:
         p = subprocess.run(cmd + [cases_path, out_path], stdout=subprocess.PIPE, stderr=subprocess.STDOUT,
-                           timeout=timeout, env=ENV, preexec_fn=_big_stack)
+                           timeout=timeout, env=env or ENV, preexec_fn=_big_stack)
         return p.returncode, p.stdout.decode("utf-8", "replace")
     except subprocess.TimeoutExpired:
         return 124, "timeout"
@@ -275,12 +275,90 @@ def run_cases(lines, tag, sides=("model", "debug", "release"), timeout=600, shar
     for side in sides:
         for l in by_side[side]:
             results[side].setdefault(case_id(l), "tool-died")
+    _confirm_timeouts(by_side, results, work)
     return results, died
+
+
+def _confirm_timeouts(by_side, results, work):
+    """The harness gives each case a wall-clock limit (5 s); on a loaded machine a case that takes
+    milliseconds can exceed it.  A 'timeout' is therefore only reported after the case has timed out
+    again when run alone (one case per process, nothing else of ours running) with a limit of 60 s."""
+    env = dict(ENV, VERIF_CASE_TIMEOUT="60")
+    for side, ls in by_side.items():
+        if side.startswith("model"):
+            continue
+        again = [l for l in ls if results[side].get(case_id(l)) == "timeout"]
+        confirmed = 0
+        for n, l in enumerate(again[:40]):
+            if confirmed >= 3:      # a real hang: no need to wait a minute for each further case
+                break
+            cp, op = f"{work}/retry_{side}_{n}.txt", f"{work}/retry_out_{side}_{n}.txt"
+            with open(cp, "w", encoding="utf-8") as f:
+                f.write(l + "\n")
+            if os.path.exists(op):
+                os.remove(op)
+            _run_tool(tool_for(side), cp, op, 120, env=env)
+            r = _read_results(op)
+            if case_id(l) in r:
+                results[side][case_id(l)] = r[case_id(l)]
+            if r.get(case_id(l), "timeout") == "timeout":
+                confirmed += 1
 
 
 def case_id(line):
     m = re.match(r"\(\S+ (\S+) ", line)
     return m.group(1) if m else "?"
+
+
+# ---------------------------------------------------------------- replays
+
+def generic_replay(rep):
+    """./check <pid> --replay <file>: runs the recorded case again on /repo's current tree (and on the
+    model) and shows both.  Exit 1 if the recorded failure is still there, 0 if it is gone."""
+    def show(k, v):
+        if isinstance(v, str):
+            v = decode_hex_fields(v)
+            v = re.sub(r"out:([0-9a-f]*)$", lambda m: "out:" + json.dumps(bytes.fromhex(m.group(1)).decode("utf-8", "replace")), v)
+        print(f"  {k}: {v}")
+    print(f"replay of {rep.get('property')} ({rep.get('tier')}, seed {rep.get('seed')}): {rep.get('summary')}")
+    if "case" not in rep and "src" not in rep:
+        for k, v in rep.items():
+            show(k, v)
+        print("  (no input to run: this replay names a theorem, a build step or a suite that no longer checks)")
+        return 1
+    build_harness()
+    build_driver()
+    if "case" in rep:
+        line = rep["case"]
+        res, _ = run_cases([line], "replay")
+        cid = case_id(line)
+        print("  case:", decode_hex_fields(line))
+        out = {s: res[s].get(cid, "?") for s in res}
+        for s, v in out.items():
+            show(s, v)
+        strip = lambda t: re.sub(r"^(err \S+)( #[0-9a-f]*)?$", r"\1", "crash" if t.startswith(("panic", "ub ", "tool-died")) else t)
+        still = len({strip(v) for v in out.values()}) > 1
+    else:
+        o = lambda x: "none" if x is None else str(x)
+        base = f"(exec c0 run {hx(rep['src'])} {hx(rep.get('stdin') or '')} {o(rep.get('write_budget'))} {o(rep.get('read_fault'))}"
+        res, _ = run_cases({"debug": [base + ")"], "release": [base + ")"],
+                            "model_debug": [base + " debug)"], "model_release": [base + " release)"]}, "replay")
+        print("  program:")
+        for l in rep["src"].split("\n"):
+            print("    | " + l)
+        if rep.get("stdin"):
+            print("  stdin:", json.dumps(rep["stdin"]))
+        out = {s: res[s].get("c0", "?") for s in res}
+        for s, v in out.items():
+            show(s, v)
+        if isinstance(rep.get("impl"), str):        # an oracle on the implementation alone
+            print("  recorded:", decode_hex_fields(rep["impl"]))
+            still = out.get(rep.get("profile", "debug")) == rep["impl"]
+        else:
+            strip = lambda t: re.sub(r"^(err \S+)( #[0-9a-f]*)? ?", r"\1 ", "crash" if t.startswith(("panic", "ub ", "tool-died")) else t)
+            still = strip(out["debug"]) != strip(out["model_debug"]) or strip(out["release"]) != strip(out["model_release"])
+    print("  => " + ("the recorded failure is still there" if still else "no longer fails"))
+    return 1 if still else 0
 
 
 # ---------------------------------------------------------------- verdicts / evidence
